@@ -189,7 +189,10 @@ func c02(r *ev.Run, replay string) {
 			c02Pool(r, ro, dedup(wpool))
 			r.Count("witness_strings", int64(len(wpool)))
 		}
-		for sh := 0; sh < shards; sh++ {
+		// The regular pools and one more (four at the thorough tier) built from
+		// integer-edge families: strings that differ in one component only,
+		// running over 0, 1 and numbers around 2^31, 2^32, 2^63 and 2^64.
+		for sh := 0; sh < shards+max(1, shards/4); sh++ {
 			wg.Add(1)
 			sem <- struct{}{}
 			go func(ro refOrder, sh int) {
@@ -201,9 +204,16 @@ func c02(r *ev.Run, replay string) {
 					}
 				}()
 				rng := r.Rand(fmt.Sprintf("%s/%d", ro.name, sh))
-				cands := gen.PoolWithVariants(rng, ro.sys, ro.gen, 2*n, func(s string) bool {
+				accept := func(s string) bool {
 					return ro.sys != semver.Maven || gen.MavenInDomain(s)
-				})
+				}
+				var cands []string
+				if sh >= shards {
+					cands = gen.ExtremeFamilies(rng, ro.gen, 2*n, accept)
+					r.Count("extreme_family_pools:"+ro.name, 1)
+				} else {
+					cands = gen.PoolWithVariants(rng, ro.sys, ro.gen, 2*n, accept)
+				}
 				c02Pool(r, ro, cands[:min(len(cands), 2*n)], n)
 			}(ro, sh)
 		}
@@ -260,7 +270,7 @@ func c02Pool(r *ev.Run, ro refOrder, cands []string, limit ...int) {
 				gapMu.Unlock()
 			}
 			if ro.normalised && norm[i] == s {
-				r.Violation("C02:"+ro.name+":reject-normal-form", fmt.Sprintf("%s: %q is in the reference's normal form and is rejected: %v", ro.name, s, err), c02case{Eco: ro.name, Pair: []string{s}})
+				r.Violation("C02:"+ro.name+":reject-normal-form"+hugeSuffix(s), fmt.Sprintf("%s: %q is in the reference's normal form and is rejected: %v", ro.name, s, err), c02case{Eco: ro.name, Pair: []string{s}})
 			}
 			v = nil
 		}
@@ -268,7 +278,7 @@ func c02Pool(r *ev.Run, ro refOrder, cands []string, limit ...int) {
 			nv, err := ro.sys.Parse(norm[i])
 			r.Eval(1)
 			if err != nil {
-				r.Violation("C02:"+ro.name+":reject-normal-form", fmt.Sprintf("%s: reference normal form %q of %q is rejected: %v", ro.name, norm[i], s, err), c02case{Eco: ro.name, Pair: []string{s}, Other: norm[i]})
+				r.Violation("C02:"+ro.name+":reject-normal-form"+hugeSuffix(norm[i]), fmt.Sprintf("%s: reference normal form %q of %q is rejected: %v", ro.name, norm[i], s, err), c02case{Eco: ro.name, Pair: []string{s}, Other: norm[i]})
 			} else if v != nil && nv.Compare(v) != 0 {
 				r.Violation("C02:"+ro.name+":normal-form-differs", fmt.Sprintf("%s: %q and its reference normal form %q compare %d", ro.name, s, norm[i], v.Compare(nv)), c02case{Eco: ro.name, Pair: []string{s}, Other: norm[i]})
 			}
@@ -301,6 +311,12 @@ func c02Pool(r *ev.Run, ro refOrder, cands []string, limit ...int) {
 				r.Count("ref_undecided:"+ro.name, 1)
 				continue
 			}
+			if ro.name == "npm" && (hasNumberFrom(strs[i], "9007199254740992") || hasNumberFrom(strs[j], "9007199254740992")) {
+				// node-semver computes with doubles: beyond 2^53 its own order
+				// is not exact (9223372036854775806 == 9223372036854775807).
+				r.Count("ref_out_of_exact_range:npm", 1)
+				continue
+			}
 			lib := vs[i].Compare(vs[j])
 			r.Eval(1)
 			if a != "0" {
@@ -313,6 +329,16 @@ func c02Pool(r *ev.Run, ro refOrder, cands []string, limit ...int) {
 			} else {
 				r.Count("equal_pairs:"+ro.name, 1)
 			}
+			// Difference is documented to return the result of Compare: the same
+			// order through the second entry point, from both sides.
+			if d, _ := vs[i].Difference(vs[j]); sign(d) != sign(lib) {
+				r.Violation("C02:"+ro.name+":difference-vs-compare", fmt.Sprintf("%s: (%q).Difference(%q) orders them %d, Compare %d, reference %s", ro.name, strs[i], strs[j], d, lib, a),
+					c02case{Eco: ro.name, Pair: []string{strs[i], strs[j]}, Lib: d, Ref: a})
+			}
+			if d, _, err := ro.sys.Difference(strs[j], strs[i]); err != nil || sign(d) != -sign(lib) {
+				r.Violation("C02:"+ro.name+":difference-vs-compare", fmt.Sprintf("%s: System.Difference(%q,%q) = %d (%v), Compare the other way round %d, reference %s", ro.name, strs[j], strs[i], d, err, lib, a),
+					c02case{Eco: ro.name, Pair: []string{strs[j], strs[i]}, Lib: d, Ref: a})
+			}
 			if fmt.Sprint(lib) != a {
 				r.Violation("C02:"+ro.name+":order:"+c02Feature(ro.name, strs[i], strs[j]), fmt.Sprintf("%s: cmp(%q,%q): library %d, reference %s", ro.name, strs[i], strs[j], lib, a),
 					c02case{Eco: ro.name, Pair: []string{strs[i], strs[j]}, Lib: lib, Ref: a})
@@ -324,5 +350,46 @@ func c02Pool(r *ev.Run, ro refOrder, cands []string, limit ...int) {
 // c02Feature names the structural feature a disagreement hinges on; it is
 // the handle by which an open known finding (if any) is identified.
 func c02Feature(eco, a, b string) string {
+	if hasNumberFrom(a, "9223372036854775807") || hasNumberFrom(b, "9223372036854775807") {
+		return "int64-overflow" // a component at or beyond 2^63-1, the library's infinity marker
+	}
 	return "generic"
+}
+
+// hasNumberFrom reports whether s contains a run of digits whose value is at
+// least min (a decimal number without leading zeros).
+func hasNumberFrom(s, min string) bool {
+	for i := 0; i < len(s); {
+		if s[i] < '0' || s[i] > '9' {
+			i++
+			continue
+		}
+		j := i
+		for j < len(s) && s[j] >= '0' && s[j] <= '9' {
+			j++
+		}
+		d := strings.TrimLeft(s[i:j], "0")
+		if len(d) > len(min) || len(d) == len(min) && d >= min {
+			return true
+		}
+		i = j
+	}
+	return false
+}
+
+func hugeSuffix(s string) string {
+	if hasNumberFrom(s, "9223372036854775807") {
+		return ":int64-overflow"
+	}
+	return ""
+}
+
+func sign(x int) int {
+	switch {
+	case x < 0:
+		return -1
+	case x > 0:
+		return 1
+	}
+	return 0
 }
